@@ -651,7 +651,9 @@ size_t rtosc_print_arg_val(const rtosc_arg_val_t *arg,
         {
             char* last_sep = buffer - 1;
             int args_written_this_line = (cols_used) ? 1 : 0;
-            STACKALLOC(rtosc_arg_val_t, args_converted, rtosc_arg_arr_len(val)); // range conversion
+            // range conversion (a variable length array must not have size 0)
+            STACKALLOC(rtosc_arg_val_t, args_converted,
+                       rtosc_arg_arr_len(val) ? rtosc_arg_arr_len(val) : 1);
 
             COUNT_UP_WRITE('[');
             if(rtosc_arg_arr_len(val))
@@ -721,7 +723,9 @@ size_t rtosc_print_arg_vals(const rtosc_arg_val_t *args, size_t n,
         opt = default_print_options;
     size_t sep_len = strlen(opt->sep);
     char* last_sep = buffer - 1;
-    STACKALLOC(rtosc_arg_val_t, args_converted, n); // only used for range conversion
+    // only used for range conversion
+    // (a variable length array must not have size 0)
+    STACKALLOC(rtosc_arg_val_t, args_converted, n ? n : 1);
 
     for(size_t i = 0; i < n;)
     {
